@@ -2138,7 +2138,16 @@ func (k *Kernel) handleReplayedHeader(
 	// otherwise the replay cannot proceed.
 	var blockPow uint64
 	var bs bitset.BitSet
-	tempProofs[string(header.Hash)].SignatureBitSet(&bs)
+	headerProof := tempProofs[string(header.Hash)]
+	if headerProof == nil {
+		return tmelink.ReplayedHeaderValidationError{
+			Err: fmt.Errorf(
+				"commit proof contains no precommits for the replayed header's hash %x",
+				header.Hash,
+			),
+		}
+	}
+	headerProof.SignatureBitSet(&bs)
 	for i, ok := bs.NextSet(0); ok && int(i) < len(header.ValidatorSet.Validators); i, ok = bs.NextSet(i + 1) {
 		blockPow += header.ValidatorSet.Validators[int(i)].Power
 	}
